@@ -480,6 +480,8 @@ void refCheck(const Op& op, const Delivery& d, const std::string& wire) {
     violate("C09:classification", "well-formed object (after corruption) rejected with " + got.code + ": " + hexdump(wire));
   if (rr.status == MpDecodeResult::Incomplete && got.code == "Ok")
     violate("C09:prefix", "truncated object (after corruption) accepted: " + hexdump(wire));
+  if (rr.status == MpDecodeResult::Invalid && got.code == "Ok")
+    violate("C09:classification", "object with the reserved code 0xC1 or a non-string map key accepted: " + hexdump(wire));
 }
 
 void opDeser(const Op& op, Ctx& cx) {
@@ -520,6 +522,31 @@ void opDeser(const Op& op, Ctx& cx) {
             q.set("expect", "any");
           }
         }
+        deliverToKinds(q, d, wire, cx);
+      } catch (Violation& v) {
+        Plan derived = *cx.plan;
+        derived.ops[cx.opIndex] = q;
+        v.msg += "\n#DERIVED-PLAN\n" + derived.text();
+        throw;
+      }
+    }
+    return;
+  }
+  if (op.has("badkeys")) {
+    // `base` ends where a map key is due: every possible header byte in turn. Only string headers
+    // may be accepted; everything else (0xC1 and fixext 16 included) is InvalidInput.
+    for (unsigned hb = 0; hb < 256; hb++) {
+      bool isStr = (hb & 0xE0) == 0xA0 || hb == 0xD9 || hb == 0xDA || hb == 0xDB;
+      std::string wire = base;
+      wire += char(hb);
+      wire += std::string("\x01\x01\x01\x01\x01", 5);
+      Op q = op;
+      q.kv.erase(std::remove_if(q.kv.begin(), q.kv.end(), [](const std::pair<std::string, std::string>& p) { return p.first == "badkeys" || p.first == "b"; }),
+                 q.kv.end());
+      q.setq("b", wire);
+      q.set("expect", isStr ? "any" : "InvalidInput").setq("why", "non-string map key").set("cls", "C09:classification");
+      count("fault.key_header_bytes");
+      try {
         deliverToKinds(q, d, wire, cx);
       } catch (Violation& v) {
         Plan derived = *cx.plan;
@@ -1128,7 +1155,7 @@ Plan generate(const std::string& mode, uint64_t seed, uint64_t run) {
   Plan p;
   p.head.set("family", "xfer").set("mode", mode).setu("seed", seed).setu("run", run);
   bool mp = r.chance(1, 2);
-  if (mode == "mpprefix" || mode == "mpcorrupt" || mode == "mpvalid")
+  if (mode == "mpprefix" || mode == "mpcorrupt" || mode == "mpvalid" || mode == "mpbadkey")
     mp = true;
   if (mode == "jsonprefix" || mode == "token" || mode == "dialect" || mode == "jsonvalid")
     mp = false;
@@ -1283,6 +1310,36 @@ Plan generate(const std::string& mode, uint64_t seed, uint64_t run) {
     if (r.chance(1, 4))
       op.set("filter", toText(genFilter(r, &v, 0)));
     p.ops.push_back(op);
+  } else if (mode == "mpbadkey") {
+    // a well-formed beginning that ends where a map key is due
+    GenOpts gk = go;
+    gk.maxDepth = 2;
+    std::string b;
+    RefMsgPackEncoder enc;
+    unsigned shape = unsigned(r.below(3));
+    if (shape == 0) {
+      b += char(0x81);
+    } else if (shape == 1) {
+      b += char(0x92);
+      b += enc.encode(genValue(r, gk));
+      b += char(0x82);
+      b += enc.encode(Val::str(genString(r, gk, true)));
+      b += enc.encode(genScalar(r, gk));
+    } else {
+      b += std::string("\xDE\x00\x03", 3);
+      b += enc.encode(Val::str("first"));
+      b += enc.encode(genValue(r, gk));
+    }
+    Op op = mkop("deser");
+    op.set("fmt", "mp").setq("b", b).set("badkeys", 1);
+    static const char* ks[] = {"cptr_n", "custom", "istream", "astream", "std"};
+    op.set("kinds", ks[r.below(5)]);
+    p.ops.push_back(op);
+    // and the reserved code at a value position
+    Op c1 = mkop("deser");
+    std::string v1 = r.chance(1, 2) ? std::string("\x91\xC1", 2) : std::string("\x81\xA1k\xC1", 4);
+    c1.set("fmt", "mp").setq("b", v1).set("kinds", "all").set("expect", "InvalidInput").setq("why", "reserved code 0xC1").set("cls", "C09:classification");
+    p.ops.push_back(c1);
   } else if (mode == "token") {
     // faults whose class is known by construction
     Val v = genValue(r, go);
